@@ -368,10 +368,10 @@ func c03prop(ev *evid.Rec) func(rt *rapid.T) {
 		go func() {
 			select {
 			case <-done:
-			case <-time.After(150 * time.Second):
+			case <-time.After(worldWatchdog - 5*time.Second): // (just before the general watchdog of inWorld: this one can name the hostile input)
 				buf := make([]byte, 1<<20)
 				n := runtime.Stack(buf, true)
-				fmt.Fprintf(os.Stderr, "VERIF-HANG-SUSPECT\nVERIF-VIOLATION C03 the server did not become quiescent / answer the sentinel within 150 s of real time; hostile input: %s\n%s\n", wdesc, buf[:n])
+				fmt.Fprintf(os.Stderr, "VERIF-HANG-SUSPECT\nVERIF-VIOLATION C03 the server did not become quiescent / answer the sentinel within %s of real time; hostile input: %s\n%s\n", worldWatchdog-5*time.Second, wdesc, buf[:n])
 				os.Exit(3)
 			}
 		}()
